@@ -185,6 +185,24 @@ def constants_snapshot():
                         continue
                     if isinstance(av, (list, dict, set, str, int, float, tuple, frozenset)):
                         snap[f'{cls.__module__}.{cls.__qualname__}.{an}'] = _val(av)
+    # every other PUBLIC module-level container of kernpy's own modules, found by discovery rather than by name, so that a shared
+    # default that a later version introduces (or one this list forgot) is watched too; objects already listed above are skipped
+    import sys
+    seen = {id(v) for v in (T.HEADERS, T.CORE_HEADERS, T.SPINE_OPERATIONS, T.BEKERN_CATEGORIES, T.NON_CORE_CATEGORIES, TR.Intervals,
+                            TR.IntervalsByName, TR.AVAILABLE_INTERVALS, TR.LETTER_TO_SEMITONES, PM.Chromas, PM.ChromasByValue, PM.pitches)}
+    for mname in sorted(m for m in sys.modules if m == 'kernpy' or m.startswith('kernpy.')):
+        if '.generated' in mname or 'polish_scores' in mname:
+            continue
+        mod = sys.modules.get(mname)
+        for name, val in sorted(getattr(mod, '__dict__', {}).items()):
+            if name.startswith('_') or id(val) in seen:
+                continue
+            if isinstance(val, (list, dict, set, frozenset, tuple)):
+                seen.add(id(val))
+                try:
+                    snap[f'{mname}.{name}'] = _val(val)
+                except Exception:
+                    pass
     return snap
 
 
